@@ -31,10 +31,6 @@ class Lifted:
             return set()
         self._active.add(g)
         cfg = F.cfg
-        succ = [cfg.position(r) for r in F.success_returns()]
-        succ = [s for s in succ if s is not None]
-        if not F.returns():
-            succ = [(cfg.exit, -1)]
         out = set()
         calls = [c for c in F.body.calls() if c.callee]
         cands = {}
@@ -45,7 +41,7 @@ class Lifted:
         for n, cs in cands.items():
             pos = [cfg.position(c) for c in cs]
             pos = [p for p in pos if p is not None]
-            if succ and not any(cfg.reaches(None, s, avoid=pos) for s in succ):
+            if not F.succeeds_avoiding(pos):
                 out.add(n)
         self._active.discard(g)
         self._must[g] = out
@@ -69,8 +65,7 @@ class Lifted:
         """every path of F to a success return runs X (directly or inside a helper)"""
         cfg = F.cfg
         avoid = [cfg.position(c) for c in self.sites(F, X, "must")]
-        succ = [cfg.position(r) for r in F.success_returns()]
-        return bool(avoid) and not any(cfg.reaches(None, s, avoid=avoid) for s in succ if s is not None)
+        return bool(avoid) and not F.succeeds_avoiding(avoid)
 
     def precedes(self, F, A, B, depth=0):
         """on every path of F, whenever B may run, A has run before (and A cannot run after B).
